@@ -36,6 +36,7 @@ package io
 //@   ensures [reader_mode_buffer_has_room] dec.reader != nil ==> dec.buf == nil || len(dec.buf) > 0
 //@   ensures [error_is_sticky] old(dec.Error) != nil ==> dec.Error != nil
 //@   ensures [memory_input_is_never_written] dec.reader == nil ==> same(dec.buf, old(dec.buf)) && dec.tail == old(dec.tail)
+//@   ensures [memory_input_bytes_are_never_written] dec.reader == nil ==> forall(j, mem(dec.buf, j) == old(mem(dec.buf, j)))
 
 // loadMore: called when the window is (logically) consumed. Memory mode: end of input, an error
 // is recorded. Reader mode: either a new non-empty window that continues the stream exactly
@@ -50,6 +51,7 @@ package io
 //@   ensures [reader_mode_buffer_has_room] dec.reader != nil ==> len(dec.buf) > 0
 //@   ensures [buffer_is_kept_or_fresh] same(dec.buf, old(dec.buf)) || (old(dec.buf) == nil && isnew(arr(dec.buf)) && off(dec.buf) == 0)
 //@   ensures [memory_mode_is_end_of_input] dec.reader == nil ==> !result && dec.head == dec.tail && dec.tail == old(dec.tail) && dec.Error != nil && same(dec.buf, old(dec.buf))
+//@   ensures [memory_input_bytes_are_never_written] dec.reader == nil ==> forall(j, mem(dec.buf, j) == old(mem(dec.buf, j)))
 //@   ensures [refill_continues_the_stream] dec.reader != nil && result ==> dec.head == 0 && 0 < dec.tail && dec.tail <= len(dec.buf) &&
 //@       ghost.rpos[ival(dec.reader)] == old(ghost.rpos[ival(dec.reader)]) + dec.tail &&
 //@       forall(j, off(dec.buf), off(dec.buf) + dec.tail, mem(dec.buf, j) == ghost.rstream[ival(dec.reader)][old(ghost.rpos[ival(dec.reader)]) - off(dec.buf) + j])
